@@ -451,10 +451,41 @@ func leniencies(prog *ast.Program) []string {
 	}
 	var expr func(e ast.Expression)
 	var stmt func(s ast.Statement, inFn bool, single bool)
+	// redeclared: a statement list that declares one name twice with `let`, or with `let` and a function declaration (or,
+	// in a function body, a parameter) - an early error of ECMAScript that a parser without scope analysis cannot see
+	redeclared := func(list []ast.Statement, params []*ast.Identifier) {
+		lets, others := map[string]bool{}, map[string]bool{}
+		for _, p := range params {
+			if p != nil {
+				others[p.Value] = true
+			}
+		}
+		for _, s := range list {
+			switch x := s.(type) {
+			case *ast.LetStatement:
+				if x != nil && x.Name != nil {
+					if lets[x.Name.Value] || others[x.Name.Value] {
+						found["redeclaration of a let-bound name in the same scope"] = true
+					}
+					lets[x.Name.Value] = true
+				}
+			case *ast.FunctionDeclaration:
+				if x != nil && x.Name != nil {
+					if lets[x.Name.Value] {
+						found["redeclaration of a let-bound name in the same scope"] = true
+					}
+					others[x.Name.Value] = true
+				}
+			}
+		}
+	}
+	var fnParams []*ast.Identifier
 	block := func(b *ast.BlockStatement, inFn bool) {
 		if b == nil {
 			return
 		}
+		redeclared(b.Statements, fnParams)
+		fnParams = nil
 		for _, s := range b.Statements {
 			stmt(s, inFn, false)
 		}
@@ -520,6 +551,7 @@ func leniencies(prog *ast.Program) []string {
 				expr(p.Value)
 			}
 		case *ast.FunctionExpression:
+			fnParams = x.Parameters
 			block(x.Body, true)
 		case *ast.LetExpression:
 			expr(x.Value)
@@ -539,6 +571,7 @@ func leniencies(prog *ast.Program) []string {
 			if single {
 				found["declaration in a single-statement position"] = true
 			}
+			fnParams = x.Parameters
 			block(x.Body, true)
 		case *ast.ReturnStatement:
 			if !inFn {
@@ -563,11 +596,12 @@ func leniencies(prog *ast.Program) []string {
 			block(x, inFn)
 		}
 	}
+	redeclared(prog.Statements, nil)
 	for _, s := range prog.Statements {
 		stmt(s, false, false)
 	}
 	var out []string
-	for _, k := range []string{"member dot followed by a non-identifier", "return outside of a function", "declaration in a single-statement position", "call or member access applied to a postfix expression", "invalid assignment target"} {
+	for _, k := range []string{"member dot followed by a non-identifier", "return outside of a function", "declaration in a single-statement position", "call or member access applied to a postfix expression", "invalid assignment target", "redeclaration of a let-bound name in the same scope"} {
 		if found[k] {
 			out = append(out, k)
 		}
